@@ -199,14 +199,22 @@ func runC16Subscribe(tier string, seed uint64, idx int) core.Result {
 
 	// plan: which subscriber opens after how many puts, where it is held and for how many further puts
 	type plan struct {
-		openAfter int64
-		holdAt    string // "", seq.waiter.added, seq.waiter.initial-read
-		holdPuts  int64
+		openAfter  int64
+		holdAt     string // "", seq.waiter.added, seq.waiter.initial-read
+		holdPuts   int64
+		closeAfter int64 // -1: stays open until the end
+	}
+	if rng.IntN(2) == 0 {
+		nSubs += 2 // churn: some subscribers leave while others stay and new ones arrive
 	}
 	plans := make([]plan, nSubs)
 	for i := range plans {
-		plans[i] = plan{openAfter: int64(rng.IntN(nPuts)), holdPuts: int64(1 + rng.IntN(3))}
+		plans[i] = plan{openAfter: int64(rng.IntN(nPuts)), holdPuts: int64(1 + rng.IntN(3)), closeAfter: -1}
 		plans[i].holdAt = []string{"", "seq.waiter.added", "seq.waiter.initial-read", "seq.waiter.initial-read"}[rng.IntN(4)]
+		if nSubs > 3 && i%2 == 1 {
+			plans[i].closeAfter = plans[i].openAfter + int64(1+rng.IntN(5))
+			plans[i].holdAt = ""
+		}
 	}
 	// the hook holds exactly the goroutine of the subscriber that is currently opening (subscribers open one at a time)
 	var holdPoint atomic.Value
@@ -246,6 +254,7 @@ func runC16Subscribe(tier string, seed uint64, idx int) core.Result {
 		bad  string
 	}
 	subs := make([]*sub, nSubs)
+	var subMu sync.Mutex
 	var subWG sync.WaitGroup
 	var openMu sync.Mutex
 	for i := range plans {
@@ -272,8 +281,26 @@ func runC16Subscribe(tier string, seed uint64, idx int) core.Result {
 				r.Violate("C16/subscribe-error", scrub(err.Error()), nil)
 				return
 			}
-			subs[i] = &sub{w: w}
+			sb := &sub{w: w}
 			r.Count("subscribers", 1)
+			if p.closeAfter >= 0 {
+				// this subscriber leaves again after a few more puts
+				for completed.Load() < p.closeAfter {
+					select {
+					case <-writerDone:
+					default:
+						time.Sleep(100 * time.Microsecond)
+						continue
+					}
+					break
+				}
+				_ = w.Close()
+				r.Count("subscribers_closed_midway", 1)
+				return
+			}
+			subMu.Lock()
+			subs[i] = sb
+			subMu.Unlock()
 		}(i)
 	}
 
